@@ -12,6 +12,14 @@ SYNTH_MAPS = [
     "50,50,2000,2,0,P|60:80|90:50,1,70\n50,50,2500,2,0,C|60:80|90:50|120:90,1,90\n256,192,3000,12,4,3500,0:0:0:0:hit.wav\n64,192,4000,1,8,1:2:3:40:\n",
     "osu file format v14\n\n[General]\nMode: 3\nSpecialStyle: 1\n\n[Difficulty]\nCircleSize:4\n\n[TimingPoints]\n0,300,4,1,0,100,1,0\n100,-25,4,1,0,100,0,1\n200,-2000,4,1,0,100,0,0\n\n"
     "[HitObjects]\n64,192,1000,128,0,1500:0:0:0:0:\n192,192,1200,1,2,0:0:0:0:\n320,192,1300,2,0,B4|330:192|340:192|350:192|360:192,1,50\n",
+    # every optional [General] / [Editor] / [Metadata] line present at once (lines written only when a rarely set flag / value is there:
+    # seed C09-v dropped the result of writing one of them), in two modes
+    "osu file format v14\n\n[General]\nAudioFilename: a.mp3\nAudioLeadIn: 500\nPreviewTime: 1200\nCountdown: 2\nSampleSet: Drum\nStackLeniency: 0.3\nMode: 1\nLetterboxInBreaks: 1\n"
+    "EpilepsyWarning: 1\nCountdownOffset: 2\nWidescreenStoryboard: 1\nSamplesMatchPlaybackRate: 1\n\n[Editor]\nBookmarks: 100,200,300\nDistanceSpacing: 1.5\nBeatDivisor: 8\nGridSize: 16\n"
+    "TimelineZoom: 2.5\n\n[Metadata]\nTitle:t\nTitleUnicode:tu\nArtist:a\nArtistUnicode:au\nCreator:c\nVersion:v\nSource:s\nTags:x y\nBeatmapID:5\nBeatmapSetID:6\n\n"
+    "[Events]\n0,0,\"bg.jpg\",0,0\n2,100,900\n\n[TimingPoints]\n0,400,4,1,0,100,1,0\n\n[HitObjects]\n64,64,1000,1,0,0:0:0:0:\n",
+    "osu file format v14\n\n[General]\nMode: 3\nSpecialStyle: 1\nSamplesMatchPlaybackRate: 1\nCountdown: 3\n\n[Difficulty]\nCircleSize:7\n\n[TimingPoints]\n0,300,4,1,0,100,1,0\n\n"
+    "[HitObjects]\n64,192,1000,128,0,1500:0:0:0:0:\n",
 ]
 # on the write side every error kind is a fatal fault alike (only `Interrupted` is retried): also the kinds a consumer that hung up
 # produces (seed C09-r: BrokenPipe from the final flush swallowed)
